@@ -536,12 +536,12 @@ def decset_replay(kind, cname, lda, bases, steps, bs, tol):
 @bound('ONE LinSolve object, the SET of dofs decoupled in row and column (identity-like rows, diagonal value 1 / 2.5 / -3) changes between responses while the size stays the same: '
        '{0,n/2} -> {0} -> {} -> {1,n-1} -> {0,n/2} (new values) -> all but dof 0 -> {n/2} -> all (diagonal matrix) -> {} -> {n-1} -> {n-1}, and the mirror order starting fully coupled; '
        'the right-hand side object is replaced (5-6 different ones) or stays the same between responses; classes {SPD, general, symmetric indefinite, complex symmetric, Hermitian PD} x '
-       'n in {5,8} [quick] / {3,5,8,13} [thorough] x {ndarray new object, ndarray updated in place, csc (pattern changes), csr with every entry stored updated in place through .data} x '
+       'n in {5,8} [quick] / {4,5,8,13} [thorough] x {ndarray new object, ndarray updated in place, csc (pattern changes), csr with every entry stored updated in place through .data} x '
        'rhs {vector, (n,2) block, (n,3) block with a zero column and a column supported on the decoupled dofs only} x LDAS on/off; every response against numpy.linalg.solve of the CURRENT matrix (1e-9), '
        'residual, dtype, operands unmodified')
 @lazy
 def linsolve_decoupled_set_history(r, tier, seed):
-    ns = sizes(tier, (5, 8), (3, 5, 8, 13))
+    ns = sizes(tier, (5, 8), (4, 5, 8, 13))      # n >= 4: the first matrix keeps >= 2 coupled dofs (a diagonal first matrix would select SolverDiagonal: C07-linsolve-stale-class)
     for n in ns:
         for ik, kind in enumerate(('spd', 'gen', 'sym_indef', 'csym', 'herm_pd')):
             rng = np.random.default_rng(seed + 61 * n + ik)
